@@ -305,7 +305,7 @@ public:
 
 	/** Returns an integer random number in the [m, M] interval */
 	template<class T>
-	T operator()(T m, T M) { return (T)(*this)((double)m, (double)M + 1); }
+	T operator()(T m, T M) { return (T)floor((*this)((double)m, (double)M + 1)); }
 
 	/** Returns a floating point random number with standard normal distribution */
 	double normal() { double u = (*this)(1e-30, 1.0), v = (*this)(1e-30, 1.0); return sqrt(-2 * log(u))*cos(2 * PI * v); }
